@@ -795,11 +795,14 @@ Definition tbl_sym (docs : list doc) (tb : list (N * list (list bool))) (rid : N
       option_map snd (find (fun x => runes_eqb (fst x) t) rows)
   | None => None
   end.
-Definition tbl_re (docs : list doc) (tb : list (N * list (bool * bool))) (stb : list (N * list (list bool))) (rid : N) (t : list N) : bool :=
+Definition tbl_re_sym (docs : list doc) (tb : list (N * list (bool * bool))) (stb : list (N * list (list bool))) (rid : N) (t : list N) : bool :=
   match tbl_re0 docs tb rid t with
   | Some b => b
   | None => match tbl_sym docs stb rid t with Some b => b | None => false end
   end.
+(** without symbol atoms (as used by the C21 runner) *)
+Definition tbl_re (docs : list doc) (tb : list (N * list (bool * bool))) (rid : N) (t : list N) : bool :=
+  tbl_re_sym docs tb [] rid t.
 (** frequencies: the number of postings consulted (the real code uses the byte size of the compressed lists; the
     selection it drives is irrelevant for the result -- theorem substring_candidates_exact -- but must be 0 exactly
     for absent trigrams) *)
@@ -835,22 +838,26 @@ Fixpoint leaves (t : mt) : list (nat * nat * nat * bool) :=
   end.
 
 Definition repo_row := (list N * N * bool * list (list N) * list (list N) * N)%type.
-Definition doc_row := (list N * list N * N * nat * N * list (nat * nat))%type.
+Definition doc_row := (list N * list N * N * nat * N)%type.                          (* documents without symbol sections (C21 runner) *)
+Definition sdoc_row := (list N * list N * N * nat * N * list (nat * nat))%type.    (* ... with their symbol sections (rune offsets) *)
 Definition mk_repo (r : repo_row) : repo :=
   let '(nm, id, tomb, ft, br, raw) := r in
   {| r_name := nm; r_id := id; r_tomb := tomb; r_ftombs := ft; r_branches := br; r_rawmask := raw |}.
 Definition mk_doc (d : doc_row) : doc :=
+  let '(nm, ct, mask, rp, lang) := d in
+  {| d_name := nm; d_content := ct; d_mask := mask; d_repo := rp; d_lang := lang; d_secs := [] |}.
+Definition mk_sdoc (d : sdoc_row) : doc :=
   let '(nm, ct, mask, rp, lang, secs) := d in
   {| d_name := nm; d_content := ct; d_mask := mask; d_repo := rp; d_lang := lang; d_secs := secs |}.
 
-Definition c01case := (list repo_row * list doc_row * list (list N * N) * list (N * N * list N) *
+Definition c01case := (list repo_row * list sdoc_row * list (list N * N) * list (N * N * list N) *
                        list (N * list (bool * bool)) * Q * list (nat * list N) *
                        option (list (nat * nat * nat * bool)) *        (* observed substring leaves of the unpruned tree (None: no tree built) *)
                        list (N * list (list bool)))%type.              (* engine verdicts on the section texts, per symbol regexp atom *)
 Definition c01_model (cs : c01case) : list nat * list nat :=
   let '(repos, docs, langs, folds, retbl, q, _, _, symtbl) := cs in
-  let c := {| c_repos := map mk_repo repos; c_docs := map mk_doc docs; c_langs := langs |} in
-  let tl := tbl_lower folds in let ob := tbl_orbit folds in let re := tbl_re (c_docs c) retbl symtbl in
+  let c := {| c_repos := map mk_repo repos; c_docs := map mk_sdoc docs; c_langs := langs |} in
+  let tl := tbl_lower folds in let ob := tbl_orbit folds in let re := tbl_re_sym (c_docs c) retbl symtbl in
   (search re tl ob c (real_freq ob c) q, spec_search re tl c q).
 Definition row_eqb (a b : nat * list N) : bool := Nat.eqb (fst a) (fst b) && runes_eqb (snd a) (snd b).
 (** 0 = model mechanism, model specification and implementation agree; 1 = the mechanism differs from the
@@ -860,7 +867,7 @@ Definition row_eqb (a b : nat * list N) : bool := Nat.eqb (fst a) (fst b) && run
     4 = the trigram selection (leftPad / rightPad / distance / freq=0 per substring atom) differs from the implementation's *)
 Definition c01_leaves (cs : c01case) : bool :=
   let '(repos, docs, langs, folds, retbl, q, _, obs, _) := cs in
-  let c := {| c_repos := map mk_repo repos; c_docs := map mk_doc docs; c_langs := langs |} in
+  let c := {| c_repos := map mk_repo repos; c_docs := map mk_sdoc docs; c_langs := langs |} in
   let ob := tbl_orbit folds in
   match obs with
   | None => true
@@ -872,8 +879,8 @@ Definition c01_leaves (cs : c01case) : bool :=
   end.
 Definition c01_hyp (cs : c01case) : bool :=
   let '(repos, docs, langs, folds, retbl, q, _, _, symtbl) := cs in
-  let c := {| c_repos := map mk_repo repos; c_docs := map mk_doc docs; c_langs := langs |} in
-  let tl := tbl_lower folds in let ob := tbl_orbit folds in let re := tbl_re (c_docs c) retbl symtbl in
+  let c := {| c_repos := map mk_repo repos; c_docs := map mk_sdoc docs; c_langs := langs |} in
+  let tl := tbl_lower folds in let ob := tbl_orbit folds in let re := tbl_re_sym (c_docs c) retbl symtbl in
   re_okb re tl ob c (real_freq ob c) (expand (simp c q)) &&
   forallb (fun d => secs_okb (length (d_content d)) (d_secs d)) (c_docs c).
 Definition c01_verdict (cs : c01case) : N :=
@@ -881,7 +888,7 @@ Definition c01_verdict (cs : c01case) : N :=
   let '(mech, spec) := c01_model cs in
   if negb (c01_hyp cs) then 3%N else
   if negb (c01_leaves cs) then 4%N else
-  let row k := let d := nth k (map mk_doc docs) dflt_doc in (d_repo d, d_name d) in
+  let row k := let d := nth k (map mk_sdoc docs) dflt_doc in (d_repo d, d_name d) in
   if negb (list_eqb row_eqb (map row mech) observed) then 1%N
   else if negb (list_eqb row_eqb (map row spec) observed) then 2%N else 0%N.
 Definition c01_mismatches (cs : list c01case) : list N := bad_indexes (fun x => N.eqb (c01_verdict x) 0) cs.
